@@ -691,7 +691,12 @@ def run_check(prop, tier="quick", seed=0, replay=None):
         "violations": len(violations),
     }
     if not replay:
-        (VERIF / "evidence" / f"{prop}.json").write_text(json.dumps(ev, indent=1, default=str))
+        if str(REPO) == "/repo":
+            (VERIF / "evidence" / f"{prop}.json").write_text(json.dumps(ev, indent=1, default=str))
+        else:  # runs against a scratch copy (self-validation) never overwrite the evidence of /repo
+            alt = VERIF / "logs" / "evidence_alt"
+            alt.mkdir(parents=True, exist_ok=True)
+            (alt / f"{prop}.json").write_text(json.dumps(ev, indent=1, default=str))
     log.close()
     for l in known_lines:
         print(l)
